@@ -101,7 +101,7 @@ def step (st : State) (line : String) : State × String :=
     | _, _ => (st, "bad-op")
   | ["iter", d], _ =>
     match key? d with
-    | some d => (st, "[" ++ joinWith "," ((iterList NB d).map toString) ++ "]")
+    | some d => (st, "[" ++ joinWith "," ((visited NB d).map toString) ++ "]")
     | none => (st, "bad-op")
   | ["dump"], some t =>
     let idx := (List.range t.buckets.length).filter (fun i => !(t.buckets.getD i []).isEmpty)
